@@ -201,9 +201,7 @@ class Model:
                     return ('reject', 'validator', True)
                 return ('accept', False)
             try:
-                c11.model_valid_ns(d[1], d[2], value if value else {}, {})
-                if value and not isinstance(value, dict):
-                    raise Reject('not a mapping')
+                c11.model_valid_ns(d[1], d[2], value, {})
             except Reject as rej:
                 return ('reject', 'namespace value: %s' % rej, True)
             return ('accept', False)
